@@ -8,7 +8,6 @@ package c10
 // it, however quickly those bytes follow.
 
 import (
-	"errors"
 	"fmt"
 	"testing"
 
@@ -95,7 +94,7 @@ func runEarly(c *Case) error {
 	case "eof":
 		end.CloseWrite()
 	case "err":
-		end.FailPeer(errors.New("injected transport error"))
+		end.FailPeer(transportErr(c.ErrKind))
 	}
 	m, ok := await(cch)
 	if !ok {
@@ -149,6 +148,7 @@ func TestEnumEarly(t *testing.T) {
 						continue
 					}
 					c := &Case{Via: "early", Dotu: dotu, Msize: mp[0], Offer: mp[1], Cut: cut, Chunk: []int{0, 1, 5}[cut%3], Fail: fk, After: 1 + cut%2}
+					rotateErr(c, idx)
 					if err := execute("early", c); err != nil {
 						hx.Violation("early", c, err.Error())
 						t.Fatalf("%v", err)
